@@ -42,7 +42,7 @@ def run_impl(case: dict) -> dict:
         kw["threshold_match_weight" if kind == "weight" else "threshold_match_probability"] = thr
     idt = "str" if isinstance(ids[0], str) else "int"
     if case["entry"] == "fn":
-        from splink.clustering import cluster_pairwise_predictions_at_threshold
+        from splink.internals.clustering import cluster_pairwise_predictions_at_threshold
 
         nodes_df = impl.typed_frame([{"my_id": ids[i]} for i in node_order], {"my_id": idt})
         edges_df = impl.typed_frame(
@@ -341,7 +341,7 @@ def compare(ctx: core.Ctx, cases: list[dict], drv: core.Driver, label="corr"):
         ctx.count("n_nodes", "0-4" if n <= 4 else "5-8" if n <= 8 else "9-40" if n <= 40 else "41-300" if n <= 300 else ">300")
         ctx.count("threshold", "none" if c.get("thr") is None else c.get("thr_kind"))
         ctx.count("idtype", c.get("idtype"))
-        if "__error__" in r:
+        if core.impl_error(r):
             ctx.count("impl_error", r["__error__"])
             problems.append((c, f"real code raised {r['__error__']}: {r['text'][:300]}", True, r))
             continue
